@@ -7,13 +7,14 @@ HERE = os.path.dirname(os.path.dirname(os.path.abspath(__file__)))
 rnd, prefix, first, descf = int(sys.argv[1]), sys.argv[2], int(sys.argv[3]), sys.argv[4]
 only = sys.argv[5:]
 desc = json.load(open(descf))
-ORIGIN = {3: "independent sub-agent given only the property text and a scratch worktree (no access to /verif), asked for a REFACTORING WITH A HIDDEN BUG (helper extraction, loop rewrite, fast path, delegation ... that breaks the property while the suite stays green)"}
+ORIGIN = {4: "independent sub-agent given only the property text and a scratch worktree (no access to /verif), asked for three SMALL maintenance slips (1-8 changed lines: operator / constant / neighbouring variable / sibling call / moved statement / +-1 / early return / moved assertion)",
+          3: "independent sub-agent given only the property text and a scratch worktree (no access to /verif), asked for a REFACTORING WITH A HIDDEN BUG (helper extraction, loop rewrite, fast path, delegation ... that breaks the property while the suite stays green)"}
 jobs = []
 for i in range(1, 21):
     pid = "C%02d" % i
     if only and pid not in only:
         continue
-    for k in (1, 2):
+    for k in (1, 2, 3):
         p, dm = "%s%s/patch_%d.diff" % (prefix, pid, k), "%s%s/demo_%d.rs" % (prefix, pid, k)
         sid = "%s-%d" % (pid, first + k - 1)
         if os.path.exists(p) and os.path.exists(dm) and not os.path.exists(os.path.join(HERE, "seeded", sid, "meta.json")):
